@@ -5,7 +5,7 @@ A=libs/pika/affinity/src/affinity_data.cpp
 cd /verif
 m() { # file unit expected regex replacement
   [[ -n "$FILTER" && ! "$2" =~ $FILTER ]] && return
-  out=$(C15_DEV=1 VX_JOBS=${VX_JOBS:-3} tools/mut.sh C15 "$1" "$4" "$5" --only "$2" 2>&1)
+  out=$(C15_DEV=1 VX_JOBS=${VX_JOBS:-3} tools/mut.sh C15 "$1" "$4" "$5" --only "$2" ${VERIF_TIER:+--tier $VERIF_TIER} 2>&1)
   ex=$(echo "$out" | grep -o 'exit=[0-9]*' | tail -1)
   ob=$(echo "$out" | grep -E "FAILED|undecided:" | head -2 | sed 's/^ *//' | cut -c1-150 | tr '\n' '|')
   echo "[$2] expect exit=$3 got $ex :: $4 -> $5 :: $ob"
@@ -49,3 +49,27 @@ m $A 'none' 1 'for \(std::size_t i = 0; i != num_threads_; \+\+i\)\s+threads::de
 m $A 'none' 1 'if \(threads::detail::test\(no_affinity_, global_thread_num\)\)\s+\{\s+static' 'if (!threads::detail::test(no_affinity_, global_thread_num)) { static'
 m $A 'none' 1 '(threads::detail::resize\(m, threads::detail::hardware_concurrency\(\)\);\s+)return m;' '\1return topo.get_machine_affinity_mask();'
 m $A 'none' 0 'threads::detail::resize\(no_affinity_, num_system_pus\);\s+for \(std::size_t i = 0; i != num_threads_; \+\+i\)' 'threads::detail::resize(no_affinity_, num_system_pus); for (std::size_t i = 0; i < num_threads_; ++i)'
+# ---- numa-balanced (slow: ~2 min per mutant).  decode.numa_balanced.pair FAILS on the unchanged tree (defect D4), so its mutants are
+#      combined with the candidate repair (+ core_offset in get_pu_number) in one replacement: REPAIR alone must give exit=0.
+REP_FROM='t\.get_pu_number\(num_core \+ used_cores, pu_indexes\[num_core\]\[num_pu\]\);(\s+affinities\[num_thread\] = t\.init_thread_affinity_mask\(\s+num_core \+ used_cores \+ core_offset)'
+REP_TO='t.get_pu_number(num_core + used_cores + core_offset, pu_indexes[num_core][num_pu]);\1'
+m $F 'numa_balanced.pair' 0 "$REP_FROM" "$REP_TO"
+m $F 'numa_balanced.pair' 1 "use_process_mask, t, num_core \+ core_offset, pu_index\);(.*?)$REP_FROM" "use_process_mask, t, num_core, pu_index);\1${REP_TO/\\1/\\2}"
+m $F 'numa_balanced.pair' 1 "(if \(\+\+num_thread == num_threads\) break;.*?)pu_indexes\[num_core\]\.push_back\(next_pu_index\[num_core\] - 1\);(.*?)$REP_FROM" "\1pu_indexes[num_core].push_back(next_pu_index[num_core]);\2${REP_TO/\\1/\\3}"
+m $F 'numa_balanced.pair' 1 "$REP_FROM" "t.get_pu_number(num_core + used_cores + core_offset, num_pu);\1"
+m $F 'numa_balanced.local' 1 'std::vector<std::size_t> next_pu_index\(num_cores_socket\[n\], 0\);' 'std::vector<std::size_t> next_pu_index(num_cores_socket[n] - 1, 0);'
+m $F 'numa_balanced.local' 1 'for \(std::size_t n = 0; n < num_sockets; \+\+n\)(\s+\{\s+num_cores_socket\[n\] = )' 'for (std::size_t n = 0; n <= num_sockets; ++n)\1'
+m $F 'numa_balanced.local' 1 'for \(std::size_t num_pu = 0; num_pu < num_pus_cores\[num_core\]; \+\+num_pu\)(\s+\{\s+if \(threads::detail::any\(affinities\[num_thread\]\)\)\s+\{\s+PIKA_THROWS_IF\(ec, pika::error::bad_parameter,\s+"decode_numa)' 'for (std::size_t num_pu = 0; num_pu <= num_pus_cores[num_core]; ++num_pu)\1'
+m $F 'numa_balanced.local' 0 'std::size_t core_offset = 0;\s+std::size_t pus_t = 0;' 'std::size_t pus_t = 0; std::size_t core_offset = 0;'
+# thorough tier (CaDiCaL, ~5 min): VERIF_TIER=thorough specs/C15/muts.sh workers
+m $F 'numa_balanced.workers' 1 'if \(\(pus_t2 \+ temp\) > num_threads\) temp = num_threads - pus_t2;' ';'
+# ---- bounded stand-ins (distinctness / completeness)
+m $F 'bounded.scatter.S2C33' 1 '(use_pu = pu_in_process_mask\(use_process_mask, t, num_core, pu_index\);\s+\+\+pu_index;\s+if \(use_pu\) \{ break; \}\s+\}\s+)next_pu_index\[num_core\] = pu_index;(\s+if \(!use_pu\) \{ continue; \}\s+num_pus\[num_thread\] =)' '\1next_pu_index[num_core] = pu_index - (use_pu ? 1 : 0);\2'
+m $F 'bounded.compact.S2C33' 1 'for \(std::size_t num_pu = 0; num_pu < num_core_pus; \+\+num_pu\)(\s+\{\s+if \(!pu_in_process_mask)' 'for (std::size_t num_pu = 1; num_pu < num_core_pus; ++num_pu)\1'
+m $F 'bounded.balanced.S2C33' 1 'num_pus_cores\[num_core\]\+\+;(\s+if \(\+\+num_thread == num_threads\) break;\s+\}\s+\}\s+// Iterate over the cores and assigned pus per core)' '\1'
+m $F 'bounded.(compact|scatter|balanced).S2C31' 0 'std::size_t num_threads = affinities\.size\(\);(\s+check_num_threads\(use_process_mask, t, num_threads, ec\);\s+if \(use_process_mask\)\s+\{\s+used_cores = 0;\s+max_cores = t.get_number_of_cores\(\);\s+\}\s+std::size_t num_cores = \(std::min\)\(max_cores, t.get_number_of_cores\(\)\);\s+num_pus.resize)' 'std::size_t const num_threads = affinities.size();\1'
+# ---- get_pu_num(i, hc) in the bind=none configuration
+m $A 'none.get_pu_num_default' 1 'return \(num_pu \+ offset\) % hardware_concurrency;' 'return (num_pu + offset + 1) % hardware_concurrency;'
+m $A 'none.get_pu_num_default' 1 'std::size_t num_pu = pu_offset_ \+ pu_step_ \* num_thread;' 'std::size_t num_pu = pu_offset_ + pu_step_ + num_thread;'
+m $A 'none.get_pu_num_default' 1 'std::size_t offset = \(num_pu / hardware_concurrency\) % pu_step_;' 'std::size_t offset = (num_pu / hardware_concurrency) + pu_step_;'
+m $A 'none.get_pu_num_default' 0 'std::size_t offset = \(num_pu / hardware_concurrency\) % pu_step_;' 'std::size_t const offset = (num_pu / hardware_concurrency) % pu_step_;'
